@@ -119,6 +119,14 @@ CHECKS = {
         note="Partial: evaluator uses of BuiltinClasses beyond token classification are covered end-to-end only. Known limitation: an added class whose SHORT name equals a program identifier in another frame changes that identifier's token kind.",
         technique="Lean 4 proof (frame lemma for map writes, classification lemma) + differential tok stream + end-to-end with/without extra configuration",
     ),
+    "C13": dict(
+        category="proof",
+        text="Classification core: Lean proves that the kind of token parser.Read builds for an identifier is a function of a small category tuple of the name (keyword, member of the configured class list, first byte upper-case, some lower-case rune, byte length ≥ 2, contains ':', starts with ':'), hence any renaming preserving that tuple preserves token kinds; the coarser Ruby category is refuted with the witness Hoge/HG (known limitation). "
+             "The classification model is tied by the tok stream. Beyond classification names are only map keys; that part is checked end-to-end: locals, methods and classes of generated programs renamed to fresh names of length 1..8 of the same category, output compared after applying the same substitution.",
+        design="DESIGN.md §4 C13",
+        note="Partial: the evaluators' treatment of names as map keys is end-to-end only. Known limitation: all-capital class names are lexed as constants.",
+        technique="Lean 4 proof (classification factors through a category tuple) + differential tok stream + end-to-end renaming",
+    ),
 }
 
 PENDING_REASON = "check not built yet in this session (see DESIGN.md §4 for the planned Lean model and theorem); not claimed until its check exists"
